@@ -636,6 +636,31 @@ def r9b_or_insert_with(src, ctx):
                 break
         if not hit: return src
 
+
+def r9c_and_modify(src, ctx):
+    """`M.entry(K).and_modify(|d| { B }).or_insert(X)` -> std definition: occupied => apply the closure body to the value, vacant => insert X."""
+    while True:
+        ct = _ct(src)
+        hit = False
+        for i in range(len(ct) - 2):
+            if ct[i].t == '.' and ct[i + 1].t == 'and_modify' and ct[i + 2].t == '(':
+                c = match_close(ct, i + 2)
+                cp = closure_parts(src, ct, i + 2, c)
+                if cp is None: raise Unsupported('and_modify argument is not a closure')
+                if not (ct[c + 1].t == '.' and ct[c + 2].t == 'or_insert' and ct[c + 3].t == '('):
+                    raise Unsupported('and_modify not followed by or_insert')
+                c2 = match_close(ct, c + 3)
+                x = src[ct[c + 3].e:ct[c2].s].strip()
+                r0 = recv_start(ct, i - 1)
+                recv = re.sub(r'\s*\.\s*', '.', src[ct[r0].s:ct[i].s].strip())
+                ev = ctx.fresh('e')
+                new = f'({{ let {ev} = {recv}; if {ev}.verif_is_vacant() {{ {ev}.verif_insert({x}); }} else {{ let {cp[0]} = {ev}.verif_into_mut(); {cp[1]} }} }})'
+                ctx.log.append(('R9', re.sub(r'\s+', ' ', src[ct[r0].s:ct[c2].e]), re.sub(r'\s+', ' ', new)))
+                src = src[:ct[r0].s] + new + src[ct[c2].e:]
+                hit = True
+                break
+        if not hit: return src
+
 # ---------------------------------------------------------------- R7 collect
 
 def r7_collect(src, ctx):
@@ -737,14 +762,26 @@ def r14_wild_closure(src, ctx):
     return re.sub(r'\|\s*_\s*\|', rep, src)
 
 
+def r16_ref_pattern(src, ctx):
+    """`if let Some(&x) = E {` -> `if let Some(__rN) = E { let x = *__rN;` (Verus has no reference patterns)."""
+    def rep(m):
+        rv = ctx.fresh('r')
+        new = f'if let Some({rv}) = {m.group(2)} {{ let {m.group(1)} = *{rv};'
+        ctx.log.append(('R16', m.group(0), new))
+        return new
+    return re.sub(r'if let Some\(&(\w+)\) = ([^{]*?) \{', rep, src)
+
+
 def apply_all(src, ctx):
     src = r0_strip(src, ctx)
+    src = r16_ref_pattern(src, ctx)
     src = r14_wild_closure(src, ctx)
     src = r1_derive(src, ctx)
     src = r6_format(src, ctx)
     src = r5_let_chain(src, ctx)
     src = r8_sort(src, ctx)
     src = r9_option(src, ctx)
+    src = r9c_and_modify(src, ctx)
     src = r9b_or_insert_with(src, ctx)
     src = r11_into_values(src, ctx)
     src = r7_collect(src, ctx)
